@@ -11,6 +11,7 @@ package conf
 //@   property C09 C16
 //@   case map-range: v.MapKeys() is iterated only to insert key -> type into the result map
 //@ func conf.Config.Check
+//@   assigns *
 //@   property C04 C09 C17
 //@   case map-range: the loops only validate; the order can change which error is reported, never a successful result
 // an operator mapping that names a missing or ill-shaped function is rejected (C17): an entry that
@@ -21,6 +22,7 @@ package conf
 
 // Overload resolution (C17): the first function in list order whose two parameter types fit (l, r).
 //@ func conf.FindSuitableOperatorOverload returns t name ok
+//@   assigns nothing
 //@   property C17
 //@   mode panics
 //@   define a1(k) := In(types[fns[k]].Type, ite(types[fns[k]].Method, 1, 0))
@@ -34,5 +36,6 @@ package conf
 
 // ConstExpr is an option callback: it runs outside any recover of the library (C04)
 //@ func conf.Config.ConstExpr
+//@   assigns *
 //@   property C04
 //@   requires c != nil && c.ConstExprFns != nil
